@@ -1,4 +1,5 @@
 """C02 Boolean connectives, ITE, constants: terminal cases + wiring"""
+import eeval
 import ereduce
 import eshort
 import ecache
@@ -56,4 +57,12 @@ def run(ctx):
                 "node must respect the variable order, and a cache entry must be valid for its key.")
     n = estep.run(ctx, F, kinds=("bdd", "bcdd", "zbdd"), parts=("bin", "ite", "not"))
     ctx.floor("E-TABLE.step", "situations of the recursive step (apply_bin, apply_ite, set operations)", n, 300)
-    ctx.not_decided = "eval, cofactor accessors, behaviour under memory exhaustion and parallel scheduling"
+    ctx.explain("E-EVAL: eval_edge is interpreted in two single steps -- one iteration of the argument loop (the entry of "
+                "var_to_level(var) ends up holding an encoding of the value that does not depend on its previous content: "
+                "the value given last counts; other entries untouched; ZBDD: the counter of true variables is kept exact) and "
+                "one call of `inner` (recurses once into the child for the stored value -- true: first, false: last, "
+                "unknown: middle -- with the same table; complement flag / counter handed down correctly; terminals "
+                "yield their value), plus the initial call and the multi-threaded delegation.")
+    n = eeval.run(ctx, F, only=("bdd", "bcdd", "zbdd"))
+    ctx.floor("E-EVAL", "interpreted eval situations", n, 40)
+    ctx.not_decided = "the default value of variables missing from eval's arguments, cofactor accessors, behaviour under memory exhaustion and parallel scheduling"
